@@ -40,7 +40,9 @@ RULE = ("paths = every solution of Basic/Specialized tracers in Antarctic, Green
         "z = z_turn - s^2). Corner geometries come first: equal depths, |dz| < 1 m, vertical, identical end points, "
         "end point on a layer boundary, equal indices, grazing incidence, flat refracted rays. Signals on integer "
         "time grids (int64, int32, range) and interpolation steps 1.5 and 5 are ordinary inputs; steps <= 0 / NaN "
-        "must raise. USED path objects are re-aimed through their mutable attributes (to_point / from_point / theta0; propagate - "
+        "must raise. EmptySignal / Signal / FunctionSignal / GaussianNoise inputs are checked for object identity (input and both "
+        "outputs distinct, no shared arrays, input unchanged, exactly one tof, outputs addable, shifting one output "
+        "moves nothing else). USED path objects are re-aimed through their mutable attributes (to_point / from_point / theta0; propagate - "
         "re-aim - propagate - back - propagate) and compared with identical never-used paths and with the new received "
         "direction. The form without polarisation (no force_real, negative frequencies looked up) is run for every "
         "interpolation step and compared with the numpy recomputation using the |f|-symmetric factor and with the "
@@ -1179,6 +1181,10 @@ def check_path(run, case, idx, path, deep=False):
         # container / dtype forms of the same numbers
         if ss is not None:
             verify_forms(path, ctx, t0, dt, x, pol, interp, extra)
+        # object identity for every signal class: input and the two outputs are three distinct objects
+        for cname in ("EmptySignal", "Signal", "FunctionSignal", "GaussianNoise"):
+            verify_identity(path, ctx, t0, dt, max(n, 4), cname, pol, interp if n != 11 else None,
+                            dict(extra, step="identity: " + cname), g)
         # lazily evaluated inputs: FunctionSignal and the Askaryan pulses (FunctionSignal subclasses)
         fresh_f, _ = make_paths(case)
         ff = fresh_f[idx] if idx < len(fresh_f) else None
@@ -1432,6 +1438,77 @@ def verify_forms(path, ctx, t0, dt, x, pol, interp, extra):
         except Exception as e:      # noqa: BLE001
             fail("crash", repr(e)[:200], "one signal", "propagate(signal) raised on an integer time grid (%s)" % name,
                  extra=ex)
+
+
+def verify_identity(path, ctx, t0, dt, n, cname, pol, interp, extra, g):
+    """polarised propagate of an EmptySignal (what the kernel hands over for cut rays), Signal, FunctionSignal or
+    noise: the caller's object and the two returned signals are THREE distinct objects without shared arrays, the
+    input is unchanged, each output sits on the input grid delayed by exactly one tof, and the outputs can be added
+    to another signal propagated along the same path"""
+    rt, im, ps, li = mods()
+    kind, fr, fail = ctx["kind"], ctx["fr"], ctx["fail"]
+    kw = {} if interp is None else {"attenuation_interpolation": interp}
+    times = t0 + dt * np.arange(n)
+    pol = np.array(pol, dtype=float)
+    vt = ps.Signal.Type.field
+    if cname == "EmptySignal":
+        sig = ps.EmptySignal(times.copy(), value_type=vt)
+    elif cname == "Signal":
+        sig = ps.Signal(times.copy(), g.standard_normal(n), value_type=vt)
+    elif cname == "FunctionSignal":
+        tt, vv = times.copy(), g.standard_normal(n)
+        sig = ps.FunctionSignal(times.copy(), lambda q, _t=tt, _v=vv: np.interp(q, _t, _v), value_type=vt)
+    else:
+        sig = ps.GaussianNoise(times.copy(), 1.0)
+        sig.value_type = vt
+    x0 = np.array(sig.values, dtype=float).copy()
+    tof = float(path.tof)
+    try:
+        (ss, sp), _ = path.propagate(sig, pol.copy(), **kw)
+        sc = path.propagate(sig, **kw)
+    except Exception as e:      # noqa: BLE001
+        fail("crash", repr(e)[:200], "signals", "propagate raised for a %s input" % cname, extra=extra)
+        return
+    outs = (("s", ss), ("p", sp), ("scalar", sc))
+    if ss is sp or any(o is sig for _, o in outs) or sc is ss or sc is sp:
+        fail("identity", None, None, "propagate of a %s returns the same object twice or the caller's own object" % cname,
+             extra=extra)
+        return
+    for name, o in outs:
+        if np.shares_memory(o.times, sig.times) or (name != "s" and np.shares_memory(o.times, ss.times)):
+            fail("identity", [name], None, "times arrays are shared between the input / the outputs of propagate (%s)"
+                 % cname, extra=extra)
+            return
+    if not np.array_equal(sig.times, times) or not np.array_equal(np.array(sig.values, dtype=float), x0):
+        fail("input-mutated", None, None, "propagate changed its %s input (times shifted or values altered)" % cname,
+             extra=extra)
+        return
+    for name, o in outs:
+        if len(o.times) != n or not np.array_equal(np.array(o.times, dtype=float), times + tof):
+            d = float(np.max(np.abs(np.array(o.times, dtype=float)[:n] - (times + tof)))) if len(o.times) == n else None
+            fail("grid", [name, d, tof], 0.0, "%s output of a propagated %s is not on the input grid delayed by exactly "
+                 "one time of flight" % (name, cname), extra=extra)
+            return
+    # the outputs combine with another signal propagated along the same path
+    other = ps.Signal(times.copy(), g.standard_normal(n), value_type=vt)
+    (os_, op_), _ = path.propagate(other, pol.copy(), **kw)
+    try:
+        tot_s, tot_p = ss + os_, sp + op_
+        good = (np.allclose(np.array(tot_s.values, dtype=float), np.array(ss.values, dtype=float)
+                            + np.array(os_.values, dtype=float), rtol=0, atol=1e-12 * (1 + float(np.max(np.abs(os_.values)))))
+                and np.array_equal(np.array(tot_p.times, dtype=float), times + tof))
+    except Exception as e:      # noqa: BLE001
+        fail("identity", repr(e)[:160], "sum of the two signals",
+             "outputs of a propagated %s cannot be added to another signal propagated along the same path" % cname,
+             extra=extra)
+        return
+    if not good:
+        fail("identity", None, None, "sum of a propagated %s and another propagated signal is wrong" % cname, extra=extra)
+    # later shifting one output must not move the other or the input
+    ss.shift(1.0)
+    if not (np.array_equal(np.array(sp.times, dtype=float), times + tof) and np.array_equal(sig.times, times)):
+        fail("identity", None, None, "shifting one output of propagate moves the other output or the input (%s)" % cname,
+             extra=extra)
 
 
 def make_function_signal(src, times, g):
